@@ -45,7 +45,7 @@ pub fn universe(peer: libp2p::PeerId) -> Universe {
     // the store never looks past the header)
     let tags = [1u8, 3, 5];
     let values = (0..3)
-        .map(|k| (0..2).map(|v| [&[0x91u8, tags[k]][..], format!("payload-{k}-{}", ["a", "b"][v]).as_bytes()].concat()).collect())
+        .map(|k| (0..2).map(|v| [&[0x91u8, tags[k]][..], format!("payload-{k}-{}", ["a", "b, which is longer than a"][v]).as_bytes()].concat()).collect())
         .collect();
     Universe { keys, values }
 }
